@@ -988,6 +988,10 @@ func callerBuffer(words []string) []string {
 	return b
 }
 
+// an error value kept from an earlier operation, and what it said then
+var keptErr error
+var keptErrText string
+
 // calls of the harness's caller-written separator function since it was last reset
 var customSepCalls int
 
@@ -1311,6 +1315,14 @@ func (e *executor) exec1(line, lean string) string {
 				return p2.String(), true
 			}, want, ro.panicked)
 		}
+		// an error value the caller kept from an earlier call says what it said, whatever refusals followed
+		if keptErr != nil && keptErr.Error() != keptErrText {
+			oracle += " RESULT-CHANGED-LATER(an error value returned by an earlier call now reads " + encHex([]byte(keptErr.Error())) + ", it read " + encHex([]byte(keptErrText)) + ")"
+			keptErr = nil
+		}
+		if err != nil && a["obj"] == "" {
+			keptErr, keptErrText = err, err.Error()
+		}
 		res := genLine("chargen", lean, p, err, ro, warn, unk, 3, secretsOf(p, nil)) + oracle + after()
 		if a["obj"] == "" && len(line)%5 == 0 {
 			res += keptResultSurvives(&p)
@@ -1525,6 +1537,17 @@ func (e *executor) exec1(line, lean string) string {
 			}
 		}
 		if wl != nil && listWords != nil && !ro.panicked && err == nil {
+			// the list as read back through one-word generations has an empty entry only if the input had one
+			inputEmpty, backEmpty := false, false
+			for _, w := range wordsArg(a) {
+				inputEmpty = inputEmpty || w == ""
+			}
+			for _, w := range listWords {
+				backEmpty = backEmpty || w == ""
+			}
+			if backEmpty && !inputEmpty {
+				so += " STRUCT-FAIL=a-word-of-the-list-yields-no-atom(no input word is empty, yet a one-word generation returns no atom)"
+			}
 			so += wlOracle(p, listWords, a.int("L"), a["sep"], decCps(a["cap"]))
 		}
 		// a password returned earlier from the same list must still read the same (C05, C15)
@@ -1651,6 +1674,36 @@ func (e *executor) exec1(line, lean string) string {
 			res += keptResultSurvives(&p)
 		}
 		return res
+
+	case "wlent0":
+		// Entropy() where Generate would refuse (Length < 1): the property's formula, literally —
+		// Length*log2(size) + (Length-1)*separator entropy, no capitalisation term for none/first/all
+		wl, werr, _ := e.wordList(a)
+		if werr != nil || wl == nil {
+			return "ok formula"
+		}
+		L := a.int("L")
+		r := spg.NewWLRecipe(L, wl)
+		applySep(r, a["sep"])
+		r.Capitalize = spg.CapScheme(decCps(a["cap"]))
+		sepEnt := 0.0
+		if strings.HasPrefix(a["sep"], "preset:") {
+			sepEnt = map[string]float64{"none": 0, "d1": math.Log2(10), "d2": 2 * math.Log2(10), "dna1": math.Log2(7), "dna2": 2 * math.Log2(7), "sym": math.Log2(6), "ds": math.Log2(16)}[a["sep"][7:]]
+		} else if strings.HasPrefix(a["sep"], "custom:") {
+			d, _ := strconv.Atoi(strings.SplitN(a["sep"][7:], ":", 2)[0])
+			sepEnt = math.Log2(float64(d))
+		}
+		want := float64(L)*math.Log2(float64(wl.Size())) + (float64(L)-1)*sepEnt
+		var got float32
+		ro := withReader(&scripted{bytes: make([]byte, 256)}, func() { got = r.Entropy() })
+		capt.take()
+		if ro.panicked {
+			return "ok formula panic"
+		}
+		if math.IsNaN(want) != (got != got) || (!math.IsNaN(want) && math.Abs(float64(got)-want) > 1e-4*math.Max(1, math.Abs(want)) && !(math.IsInf(want, 0) && math.IsInf(float64(got), 0) && (want > 0) == (got > 0))) {
+			return fmt.Sprintf("ok formula D=BAD(Entropy()=%v at Length %d, the formula gives %v)", got, L, want)
+		}
+		return "ok formula"
 
 	case "title":
 		// strings.Title itself, against its transcription in the model (ASCII words)
